@@ -27,9 +27,9 @@ def skeleton(ver, v):
                      (nested, N.NULL, v['cell1'])])
 
 
-def assemble(hs, ver, o, absent):
+def assemble(hs, ver, o, absent, verarg='str'):
     """The hszinc grid the skeleton denotes, built through the public API from hszinc values `o`."""
-    g = hs.Grid(version=ver, metadata={}, columns=[('n', [('cm', o['cmeta']), ('ab', hs.MARKER)]), ('colB2_x', []), ('a', [('dis', 'C')])])
+    g = hs.Grid(version=version_argument(hs, ver, verarg), metadata={}, columns=[('n', [('cm', o['cmeta']), ('ab', hs.MARKER)]), ('colB2_x', []), ('a', [('dis', 'C')])])
     g.metadata['gM_1'] = o['gmeta']
     g.metadata['aa'] = hs.MARKER
     if ver == '2.0':
@@ -102,8 +102,8 @@ def flat_skeleton(ver, v):
                     [(v['cell0'], N.NULL, ONE), (ONE, N.NULL, v['cell1'])])
 
 
-def flat_assemble(hs, ver, o, absent):
-    g = hs.Grid(version=ver, metadata={}, columns=[('n', [('cm', o['cmeta']), ('ab', hs.MARKER)]), ('colB2_x', []), ('a', [('dis', 'C')])])
+def flat_assemble(hs, ver, o, absent, verarg='str'):
+    g = hs.Grid(version=version_argument(hs, ver, verarg), metadata={}, columns=[('n', [('cm', o['cmeta']), ('ab', hs.MARKER)]), ('colB2_x', []), ('a', [('dis', 'C')])])
     g.metadata['gM_1'] = o['gmeta']
     g.metadata['aa'] = hs.MARKER
     r0 = {'n': o['cell0'], 'colB2_x': None, 'a': 1.0}
@@ -136,6 +136,32 @@ def cat_for(ver, which):
 
 
 TRIMS = ['full', 'one-row', 'no-rows', 'one-col']
+# how the ordered maps of the grid (metadata, columns, column metadata) reached their order:
+# 'append' = keys added in final order; 'relocate' = first key deleted and re-inserted at the front,
+# so the creation order of the backing storage differs from the map's order
+HISTS = ['append', 'relocate']
+# how the version was declared: a string, the library's shared constant object, or not at all (detected)
+VERARGS = ['str', 'const', 'detect']
+
+
+def version_argument(hs, ver, verarg):
+    if verarg == 'const':
+        return hs.VER_3_0 if ver == '3.0' else hs.VER_2_0
+    if verarg == 'detect':
+        return None
+    return ver
+
+
+def rehistory(hs, g):
+    maps = [g.metadata, g.column] + [g.column[c] for c in list(g.column.keys())]
+    for m in maps:
+        keys = list(m.keys())
+        if len(keys) < 2:
+            continue
+        v = m[keys[0]]
+        del m[keys[0]]
+        m.add_item(keys[0], v, index=0)
+    return g
 
 
 def trim_neutral(n, trim):
@@ -166,16 +192,23 @@ def trim_grid(hs, g, trim):
     return g
 
 
-def execute(hs, prop, fmt, oracle, ver, shape, multi, form, ents, absent, trim='full'):
+def execute(hs, prop, fmt, oracle, ver, shape, multi, form, ents, absent, trim='full', hist='append', verarg='str'):
     """One case.  -> (outcome summary, list of (symptom, sig-extra, detail))"""
     slots = SLOTS3 if (ver == '3.0' and shape == 'full') else SLOTS2
     mode = hs.MODE_ZINC if fmt == 'zinc' else hs.MODE_JSON
     nvals = {s: ents[s].n for s in slots}
     expected = [trim_neutral(skeleton(ver, nvals) if shape == 'full' else flat_skeleton(ver, nvals), trim)]
+    if verarg == 'detect':
+        # an undeclared version is 2.0 unless the grid holds a kind that exists only from 3.0 on (C10)
+        v3 = (ver == '3.0' and shape == 'full') or any(ents[s].minver == '3.0' or N.needs_v3(ents[s].n) for s in slots)
+        expected[0] = ('grid', '3.0' if v3 else '2.0') + expected[0][2:]
+    ever = expected[0][1]
     fails = []
     try:
         objs = {s: O.build(ents[s].n, hs, ents[s].hint) for s in slots}
-        g = assemble(hs, ver, objs, absent) if shape == 'full' else flat_assemble(hs, ver, objs, absent)
+        g = assemble(hs, ver, objs, absent, verarg) if shape == 'full' else flat_assemble(hs, ver, objs, absent, verarg)
+        if hist == 'relocate':
+            g = rehistory(hs, g)
         g = trim_grid(hs, g, trim)
     except Exception as e:  # noqa
         return 'build-raised', [('grid-construction-raised', {'exc': exc_name(e)}, {'exc': repr(e)})]
@@ -201,7 +234,7 @@ def execute(hs, prop, fmt, oracle, ver, shape, multi, form, ents, absent, trim='
         try:
             jo = json.loads(text)
             first = (jo[1] if (multi == 3 and len(jo) > 1) else jo[0]) if isinstance(jo, list) else jo
-            bad = '-:' if ver == '2.0' else 'x:'
+            bad = '-:' if ever == '2.0' else 'x:'
             if _has_value(first, bad, top=True):
                 fails.append(('remove-spelled-for-other-version', {'spelling': bad}, detail))
         except ValueError:
@@ -280,40 +313,48 @@ def run_case(ch, st, prop, fmt, oracle, ver, shape, multi, form, which):
     ents = {s: ch.choose(s, [DEFAULT] + cat) for s in slots}
     absent = ch.choose('absent', [False, True])
     trim = ch.choose('trim', TRIMS)
+    hist = ch.choose('hist', HISTS)
+    verarg = ch.choose('verarg', VERARGS)
     if trim != 'full' and absent:
         absent = False
-    outcome, fails = execute(hs, prop, fmt, oracle, ver, shape, multi, form, ents, absent, trim)
+    outcome, fails = execute(hs, prop, fmt, oracle, ver, shape, multi, form, ents, absent, trim, hist, verarg)
     if outcome.startswith('skip:'):
         st.skip(outcome[5:])
     devs = [(s, ents[s]) for s in slots if ents[s] is not DEFAULT]
     names = tuple((s, e.name) for s, e in devs)
-    st.case((ver, shape, multi, form, names, absent, trim), nontrivial=bool(devs), outcome=(outcome, tuple(sorted(set(e.n[0] for _, e in devs)))),
-            sample={'ver': ver, 'skeleton': shape, 'grids': multi, 'input_form': form, 'slots': dict(names), 'absent_key': absent, 'outcome': outcome})
+    st.case((ver, shape, multi, form, names, absent, trim, hist, verarg), nontrivial=bool(devs), outcome=(outcome, tuple(sorted(set(e.n[0] for _, e in devs)))),
+            sample={'ver': ver, 'skeleton': shape, 'grids': multi, 'input_form': form, 'slots': dict(names), 'absent_key': absent, 'outcome': outcome,
+                    'map_history': hist, 'version_declared_by': verarg})
     if not fails:
         return
     # minimise: a failure with several deviations that already occurs with one of them alone is the
     # smaller case's finding (explored too, since exploration is downward closed)
-    ndev = len(devs) + (1 if absent else 0) + (1 if trim != 'full' else 0)
+    ndev = len(devs) + (1 if absent else 0) + (1 if trim != 'full' else 0) + (1 if hist != 'append' else 0) + (1 if verarg != 'str' else 0)
     if ndev >= 2:
         singles = []
+        none = {k: DEFAULT for k in slots}
         for s, e in devs:
-            singles.append(({k: (e if k == s else DEFAULT) for k in slots}, False, 'full'))
+            singles.append(({k: (e if k == s else DEFAULT) for k in slots}, False, 'full', 'append', 'str'))
         if absent:
-            singles.append(({k: DEFAULT for k in slots}, True, 'full'))
+            singles.append((none, True, 'full', 'append', 'str'))
         if trim != 'full':
-            singles.append(({k: DEFAULT for k in slots}, False, trim))
-        for sents, sabs, strim in singles:
-            _, sf = execute(hs, prop, fmt, oracle, ver, shape, multi, form, sents, sabs, strim)
+            singles.append((none, False, trim, 'append', 'str'))
+        if hist != 'append':
+            singles.append((none, False, 'full', hist, 'str'))
+        if verarg != 'str':
+            singles.append((none, False, 'full', 'append', verarg))
+        for sents, sabs, strim, shist, sver in singles:
+            _, sf = execute(hs, prop, fmt, oracle, ver, shape, multi, form, sents, sabs, strim, shist, sver)
             if sf and sf[0][0] == fails[0][0]:
                 st.count('failures_subsumed_by_smaller_case')
                 return
     for symptom, extra, detail in fails:
-        sig = {'fmt': fmt, 'ver': ver, 'trim': trim, 'payloads': '|'.join(sorted(e.name for _, e in devs)) or '-',
+        sig = {'fmt': fmt, 'ver': ver, 'trim': trim, 'hist': hist, 'verarg': verarg, 'payloads': '|'.join(sorted(e.name for _, e in devs)) or '-',
                'kinds': '|'.join(sorted(e.n[0] for _, e in devs)) or '-'}
         sig.update({k: v for k, v in extra.items() if k != 'grid'})
         st.fail(symptom, sig,
                 {'prop': prop, 'fmt': fmt, 'oracle': oracle, 'ver': ver, 'shape': shape, 'multi': multi, 'form': form,
-                 'slots': {s: e.name for s, e in devs}, 'absent': absent, 'trim': trim},
+                 'slots': {s: e.name for s, e in devs}, 'absent': absent, 'trim': trim, 'hist': hist, 'verarg': verarg},
                 dict(detail, slots={s: e.name for s, e in devs}))
 
 
@@ -322,7 +363,7 @@ def replay_case(case, st):
     slots = SLOTS3 if (case['ver'] == '3.0' and case['shape'] == 'full') else SLOTS2
     ents = {s: C.BY_NAME[case['slots'][s]] if s in case['slots'] else DEFAULT for s in slots}
     outcome, fails = execute(hs, case['prop'], case['fmt'], case['oracle'], case['ver'], case['shape'], case['multi'],
-                             case['form'], ents, case['absent'], case.get('trim', 'full'))
+                             case['form'], ents, case['absent'], case.get('trim', 'full'), case.get('hist', 'append'), case.get('verarg', 'str'))
     for symptom, extra, detail in fails:
         st.fail(symptom, dict(extra), case, detail)
 
